@@ -4,7 +4,7 @@
     (trusted base): transactions are atomic, and durable once Commit returned. *)
 From Coq Require Import List NArith Bool Arith.
 From Atlas Require Import Base.Bytes Base.Stutter Exec.ExecModel Exec.ExecProofs Exec.StepProofs Exec.PendingModel Exec.PendingProofs
-  Exec.RunModel Exec.TxModel Exec.TxProofs Exec.RunProofs Exec.CrashProofs Exec.CrashStoreModel Exec.CrashStoreProofs Exec.LockModel Exec.LockProofs Exec.TxOrderModel Exec.TxOrderProofs.
+  Exec.RunModel Exec.TxModel Exec.TxProofs Exec.RunProofs Exec.CrashProofs Exec.CrashStoreModel Exec.CrashStoreProofs Exec.LockModel Exec.LockProofs Exec.TxOrderModel Exec.TxOrderProofs Exec.CrashPointsModel gen.Gen_CrashPoints.
 Import ListNotations.
 
 Section C10.
@@ -585,4 +585,27 @@ Example C10_order_nonvacuous :
        o3 = ADone /\ d_journal c3 = [s 1; s 2; s 6])
   | None => False
   end.
+Proof. vm_compute. repeat split; reflexivity. Qed.
+
+(** ** Round 5: census of the crash hooks. gen/Gen_CrashPoints.v is regenerated on every run from
+    the Go tree (every call verifPoint("<name>") outside test files). The model's crash-point
+    type is enumerated by [all_points]; [point_name] (extracted, used by the driver to print and
+    parse points) is injective; every hook call of the tree names a point of the model, and every
+    point of the model is a hook call of the tree. A hook added to the tree without a point in
+    the model (or a point removed from the tree) breaks this theorem. The finite side conditions
+    over the generated list are checked by computation. *)
+Theorem C10_crashpoints_covered :
+  (forall p : point, In p all_points) /\
+  (forall p : point, point_of_name (point_name p) = Some p) /\
+  hooks_covered gen_crash_points = true /\
+  points_hooked gen_crash_points = true.
+Proof.
+  split; [intros []; cbn; tauto|]. split; [intros []; reflexivity|].
+  split; vm_compute; reflexivity.
+Qed.
+Print Assumptions C10_crashpoints_covered.
+
+Example C10_crashpoints_nonvacuous :
+  List.length gen_crash_points = 6 /\ hooks_covered example_unknown_hook = false /\
+  points_hooked (tl gen_crash_points) = false.
 Proof. vm_compute. repeat split; reflexivity. Qed.
